@@ -4,7 +4,8 @@
    marks_ok x q t  : no node marked Infeasible has x in its closed path polytope (per input x; for an oracle sound
                      up to thin regions: every x outside the polytopes it declared infeasible)
    Paths are those of the RESULT tree (a forwarded node has a shorter path, hence a larger region). *)
-From AT Require Import Num Vec Aff PTree Cells Abs Cache Elim ElimEval ElimCache CPrune CPruneCache ElimExample RemoveAxesCache.
+From AT Require Import Num Vec Aff PTree Cells Abs Cache Elim ElimEval ElimCache CPrune CPruneCache ElimExample RemoveAxesCache
+  Ops Reduce Schema WfC OpsWf ElimWf CPruneWf History CacheHistory CacheHistoryRun CacheHistoryAxes.
 
 (* points returned by the witness-repair heuristic lie in the polytope they were asked for: the acceptance test of
    mirror_points (normalised rows, positive factors nu_i, margin eps = 1e-10) implies membership *)
@@ -42,6 +43,43 @@ Proof. exact cremove_axes_cache. Qed.
 Theorem C05_witness_monotone : forall tol t q q', (forall r, In r q' -> In r q) -> wit_ok tol q t -> wit_ok tol q' t.
 Proof. exact wit_ok_incl. Qed.
 
+(* ---- all operation histories (History.run: apply_func, compose with and without pruning, elimination, reduce, the
+   lifted operators, negation, operators with an affine map; every step with its own oracle).  The invariant
+   hinv x tol t = no Infeasible mark on a region that contains x  /\  every stored witness lies in its node's path
+   polytope (within tol)  /\  a node marked Infeasible has no sibling.  Only the elimination steps consult the
+   oracle assumptions (LP: Infeasible answers exclude x; repair heuristic: returned points pass the containment
+   test, which the code re-checks). ---- *)
+Theorem C05_history : forall tol x ops n m init t,
+  cwft n m init -> compat_hist (n, m) ops = true ->
+  (forall ox, In ox ops -> osound (fst ox) x /\ mir_sound (fst ox) tol) ->
+  hinv x tol init -> run tol init ops = HOk t -> hinv x tol t.
+Proof. exact history_inv. Qed.
+(* every tree the library constructs has all states Indeterminate *)
+Theorem C05_history_from_fresh : forall tol x ops n m init t,
+  cwft n m init -> compat_hist (n, m) ops = true -> fresh init ->
+  (forall ox, In ox ops -> osound (fst ox) x /\ mir_sound (fst ox) tol) ->
+  run tol init ops = HOk t -> hinv x tol t.
+Proof. exact history_inv_fresh. Qed.
+Theorem C05_step : forall tol x o op t t',
+  cleafok t -> osound o x -> mir_sound o tol -> hinv x tol t -> step tol o op t = HOk t' -> hinv x tol t'.
+Proof. exact step_inv. Qed.
+(* reduce moves child 0 (with its cache) into the place of its parent: sound because a marked node has no sibling *)
+Theorem C05_reduce : forall x tol t, solo t -> marks_ok x [] t -> wit_ok tol [] t ->
+  solo (creduce t) /\ marks_ok x [] (creduce t) /\ wit_ok tol [] (creduce t).
+Proof. exact creduce_inv. Qed.
+(* elimination never leaves a marked node beside a sibling *)
+Theorem C05_elim_marked_alone : forall o tol t, solo t -> solo (fst (elim o tol t)).
+Proof. exact elim_solo. Qed.
+(* after remove_axes a history continues from a reset cache *)
+Theorem C05_remove_axes_restarts : forall mask x tol t, hinv x tol (cremove_axes mask t).
+Proof. exact cremove_axes_hinv. Qed.
+(* non-vacuity of the history theorem: elimination (prunes + forwards), reduce, apply_func, elimination *)
+Example C05_history_nonvacuous :
+  cwft 1 1 ex_t /\ compat_hist (1%nat, 1%nat) hx_hist = true /\ fresh ex_t /\
+  (forall x ox, In ox hx_hist -> osound (fst ox) x /\ mir_sound (fst ox) 0) /\
+  run 0 ex_t hx_hist = HOk hx_res /\ (forall x, hinv x 0 hx_res).
+Proof. exact hx_example. Qed.
+
 Example C05_nonvacuous :
   mir_sound ex_o 0 /\ wit_ok 0 [] ex_t /\ wit_ok 0 [] (fst (elim ex_o 0 ex_t)) /\
   (forall x, marks_kids x [] (fst (elim ex_o 0 ex_t))).
@@ -57,3 +95,10 @@ Print Assumptions C05_prune_marks.
 Print Assumptions C05_remove_axes_resets.
 Print Assumptions C05_witness_monotone.
 Print Assumptions C05_nonvacuous.
+Print Assumptions C05_history.
+Print Assumptions C05_history_from_fresh.
+Print Assumptions C05_step.
+Print Assumptions C05_reduce.
+Print Assumptions C05_elim_marked_alone.
+Print Assumptions C05_remove_axes_restarts.
+Print Assumptions C05_history_nonvacuous.
